@@ -150,6 +150,10 @@ impl<'a, T> IterVectorsMut<'a, T> {
         } else {
             unsafe { lower.add(offset) }
         };
+        #[cfg(feature = "verif-hooks")]
+        crate::verif_hooks::record_ptr("vectors.assemble.lower", lower.addr().get());
+        #[cfg(feature = "verif-hooks")]
+        crate::verif_hooks::record_ptr("vectors.assemble.upper", upper.addr().get());
         let layout = Some(Layout {
             axis_stride,
             vector_stride,
@@ -189,6 +193,8 @@ impl<'a, T> Iterator for IterVectorsMut<'a, T> {
             } else {
                 unsafe { self.lower.add(stride) }
             };
+            #[cfg(feature = "verif-hooks")]
+            crate::verif_hooks::record_ptr("vectors.next.lower", self.lower.addr().get());
         }
 
         Some(result)
@@ -235,6 +241,8 @@ impl<T> DoubleEndedIterator for IterVectorsMut<'_, T> {
             } else {
                 unsafe { self.upper.sub(stride) }
             };
+            #[cfg(feature = "verif-hooks")]
+            crate::verif_hooks::record_ptr("vectors.next_back.upper", self.upper.addr().get());
         }
 
         Some(result)
@@ -360,6 +368,10 @@ impl<'a, T> IterNthVectorMut<'a, T> {
             unsafe { lower.add(offset) }
         };
 
+        #[cfg(feature = "verif-hooks")]
+        crate::verif_hooks::record_ptr("vector.assemble.lower", lower.addr().get());
+        #[cfg(feature = "verif-hooks")]
+        crate::verif_hooks::record_ptr("vector.assemble.upper", upper.addr().get());
         Self {
             lower,
             upper,
@@ -391,6 +403,8 @@ impl<'a, T> Iterator for IterNthVectorMut<'a, T> {
             } else {
                 unsafe { self.lower.add(stride) }
             };
+            #[cfg(feature = "verif-hooks")]
+            crate::verif_hooks::record_ptr("vector.next.lower", self.lower.addr().get());
         }
 
         Some(result)
@@ -436,6 +450,8 @@ impl<T> DoubleEndedIterator for IterNthVectorMut<'_, T> {
             } else {
                 unsafe { self.upper.sub(stride) }
             };
+            #[cfg(feature = "verif-hooks")]
+            crate::verif_hooks::record_ptr("vector.next_back.upper", self.upper.addr().get());
         }
 
         Some(result)
